@@ -119,6 +119,12 @@ def conclude(prop, tier, seed, kunits, kres, kinfo, vunits, vres, vinfo, known, 
         else:
             undecided.append(f"verus {uname}: {e['status']}: {e.get('reason','')[:300]}")
 
+    # findings that no verifier in reach can re-observe (demonstrated natively once, see findings/<id>/): they are listed on
+    # every run so that the exit-0 line is never read as "nothing known", and say so explicitly
+    for kid, k in known.items():
+        if k.get("status") == "known" and k.get("reproduced_by") == "native-demo":
+            known_lines.append(f"KNOWN-FINDING: property={prop} {kid}: {k['what_fails']} [recorded from the native demonstration in findings/{kid}; outside the functions under contract, not re-checked by this run]")
+
     # ---- replay files + lines
     rc = 0
     vcount = 0
